@@ -3,6 +3,7 @@ package rules
 import (
 	"go/token"
 	"go/types"
+	"strings"
 
 	"golang.org/x/tools/go/ssa"
 
@@ -160,4 +161,26 @@ func (c *Ctx) searchResultKind(rule string) {
 	}
 	R.Min(rule, "mappers returning the UID", kinds["UID"], 1)
 	R.Min(rule, "mappers returning the sequence number", kinds["Seq"], 1)
+}
+
+// searchReadsByIDAlone (R15.7): the row SEARCH reads for a message of the view is found by the message id alone.
+func (c *Ctx) searchReadsByIDAlone(rule string) {
+	R := c.R
+	R.Explain(rule, "the session's own view decides which messages exist: the statement behind db.ReadOnly.GetMessageDateAndSize (the only index read SEARCH makes per message, for the size and internal-date keys) selects by the message id and nothing else - no AND / OR / JOIN.  A message of the view can already be marked deleted in the index (removed by the connector, its EXPUNGE still held back); any further predicate makes every SEARCH with a size or date key fail with `value not found` instead of answering from the view.")
+	res := c.sqlAnalysis()
+	n := 0
+	for _, st := range res.stmts {
+		if st.fn == nil || st.mig || engine.ShortName(topFn(st.fn)) != "GetMessageDateAndSize" {
+			continue
+		}
+		n++
+		up := " " + strings.ToUpper(strings.Join(strings.Fields(st.text), " ")) + " "
+		where := ""
+		if i := strings.Index(up, " WHERE "); i >= 0 {
+			where = up[i+7:]
+		}
+		ok := where != "" && !strings.Contains(where, " AND ") && !strings.Contains(where, " OR ") && !strings.Contains(up, " JOIN ") && strings.Count(where, "?") == 1
+		R.Check(ok, rule, c.name(st.fn)+"|lookup by id alone", st.pos, "WHERE <id> = ? and nothing else", "the statement that loads a message's date and size for SEARCH carries more than the id predicate ("+st.text+"): messages the session still shows but the index has marked are not found and the whole SEARCH fails")
+	}
+	R.Min(rule, "statements of GetMessageDateAndSize", n, 1)
 }
